@@ -9,8 +9,25 @@ Definition is_some {A} (o : option A) : bool := match o with Some _ => true | No
 Definition isnil {A} (l : list A) : bool := match l with [] => true | _ => false end.
 Definition impb (a b : bool) : bool := negb a || b.
 
-(* conf.Path.validate: runOnDemand / runOnUnDemand only with source: publisher *)
-Definition conf_ok (cf : pconf) : bool := impb (c_static cf) (negb (c_hDemand cf)).
+Definition is_snone (c : sub) : bool := match c with SNone => true | _ => false end.
+
+(* conf.Path.validate: runOnDemand / runOnUnDemand only with source: publisher; alwaysAvailable excludes
+   sourceOnDemand, runOnDemand and runOnUnDemand *)
+Definition conf_ok (cf : pconf) : bool :=
+  impb (c_static cf) (negb (c_hDemand cf))
+  && impb (c_aa cf) (negb (c_sod cf) && negb (c_hDemand cf) && negb (c_hUnDemand cf)).
+
+(* the current sub-stream is the one of the attached source: the attached publisher's, the ready static
+   source's, the offline one of an alwaysAvailable stream without source, none without stream *)
+Definition sub_b (s : pstate) : bool :=
+  let cf := s_conf s in
+  let up := is_some (s_stream s) in
+  match s_sub s with
+  | SNone => negb up
+  | SOffline => up && c_aa cf && negb (is_some (s_source s)) && negb (s_instReady s)
+  | SPub p => up && match s_source s with Some p' => p =? p' | None => false end
+  | SStatic => up && c_static cf && s_instReady s
+  end.
 
 (* ---- the invariant ---------------------------------------------------------------------------- *)
 (* finite part, as a boolean function of the state (lists enter through isnil only) *)
@@ -18,10 +35,15 @@ Definition core_b (fx : bool) (s : pstate) : bool :=
   let cf := s_conf s in
   let up := is_some (s_stream s) in
   conf_ok cf
-  (* one source; on a publisher path the stream exists iff a publisher is attached *)
-  && (if c_static cf then negb (is_some (s_source s)) else Bool.eqb (is_some (s_source s)) up)
+  (* one source; on a publisher path the stream exists iff a publisher is attached; an alwaysAvailable
+     path has its stream as long as it lives *)
+  && (if c_static cf then negb (is_some (s_source s))
+      else if c_aa cf then true else Bool.eqb (is_some (s_source s)) up)
+  && impb (c_aa cf) up
+  && sub_b s
   && impb up (s_hUnavail s)
-  && Bool.eqb (s_hOffline s) up
+  (* the online pair is open iff a source is attached (= the stream exists, unless alwaysAvailable) *)
+  && Bool.eqb (s_hOffline s) (if c_aa cf then is_some (s_source s) || s_instReady s else up)
   && impb (negb up) (isnil (s_readers s))
   (* on-demand publisher automaton *)
   && Bool.eqb (s_pubReadyT s) (ods_eqb (s_pubState s) OdWaiting)
@@ -35,7 +57,7 @@ Definition core_b (fx : bool) (s : pstate) : bool :=
   && Bool.eqb (s_ssCloseT s) (ods_eqb (s_ssState s) OdClosing)
   && Bool.eqb (s_ssRunning s) (c_static cf && (negb (c_sod cf) || negb (ods_eqb (s_ssState s) OdInitial)))
   && impb (negb (ods_eqb (s_ssState s) OdInitial)) (od_static cf)
-  && Bool.eqb (s_instReady s) (c_static cf && up)
+  && (if c_aa cf then impb (s_instReady s) (c_static cf) else Bool.eqb (s_instReady s) (c_static cf && up))
   && impb (ods_eqb (s_ssState s) OdWaiting) (negb up)
   && impb (ods_eqb (s_ssState s) OdReady || ods_eqb (s_ssState s) OdClosing) up.
 
@@ -50,7 +72,7 @@ Definition hold_b (fx : bool) (s : pstate) : bool :=
 
 Definition closed_b (s : pstate) : bool :=
   no_holds_b s && negb (is_some (s_stream s)) && negb (is_some (s_source s)) && isnil (s_readers s)
-  && negb (s_hOffline s) && negb (s_hUnDemand s) && conf_ok (s_conf s).
+  && negb (s_hOffline s) && negb (s_hUnDemand s) && is_snone (s_sub s) && conf_ok (s_conf s).
 
 Definition inv_b (fx : bool) (s : pstate) : bool :=
   if s_closed s then closed_b s else core_b fx s && hold_b fx s.
@@ -65,20 +87,24 @@ Definition Inv (fx : bool) (s : pstate) : Prop := inv_b fx s = true /\ ListInv s
 (* ---- automation --------------------------------------------------------------------------------- *)
 Ltac destr_conf cf :=
   let a := fresh "c_st" in let b := fresh "c_sd" in let c := fresh "c_ov" in let d := fresh "c_mx" in
-  destruct cf as [a b c d ? ? ? ? ? ?].
+  destruct cf as [a b c d ? ? ? ? ? ? ?].
 
 Ltac start s :=
   let cf := fresh "cf" in
-  destruct s as [cf cl src str ng rd dh rh sst srt sct srun ir pst prt pct hud hua hof]; destr_conf cf.
+  destruct s as [cf cl src str ng rd dh rh sst srt sct srun ir pst prt pct hud hua hof sb]; destr_conf cf.
 
 (* case split on a finite variable, dropping the cases the invariant excludes *)
 Ltac sp H x := destruct x; cbn in H; try discriminate H.
 
+Lemma init_fields cf : s_readers (init_state cf) = [] /\ s_conf (init_state cf) = cf.
+Proof. destr_conf cf. destruct c_aa, c_st, c_sd; split; reflexivity. Qed.
+
 Lemma inv_init fx cf : conf_ok cf = true -> Inv fx (init_state cf).
 Proof.
   intros Hc. split.
-  - destr_conf cf. unfold conf_ok in Hc. cbn in *. destruct fx, c_st, c_sd, c_hDemand; cbn in *; try discriminate; reflexivity.
-  - split; cbn; [constructor|intros _; lia].
+  - destr_conf cf. unfold conf_ok in Hc. cbn in Hc.
+    destruct fx, c_st, c_sd, c_hDemand, c_hUnDemand, c_aa; cbn in Hc; try discriminate Hc; vm_compute; reflexivity.
+  - destruct (init_fields cf) as [A B]. unfold ListInv. rewrite A, B. split; cbn; [constructor|intros _; lia].
 Qed.
 
 Lemma fst_bind f g s : fst ((f ;; g) s) = fst (g (fst (f s))).
@@ -101,12 +127,13 @@ Ltac prune :=
   cbn in * |-; try match goal with H : false = true |- _ => discriminate H end;
   repeat match goal with
          | H : isnil ?l = true |- _ => is_var l; destruct l; [clear H|discriminate H]
+         | H : (?a =? ?b) = true |- _ => apply Z.eqb_eq in H; subst
          end.
 Ltac spx x := destruct x; prune.
 
 (* open the invariant of an explicit live state: afterwards every finite field is a constant *)
 Ltac open_inv H :=
-  unfold inv_b, core_b, hold_b, no_holds_b, conf_ok, od_static, od_pub in H; cbn in H; split_hyps; subst; prune.
+  unfold inv_b, core_b, sub_b, hold_b, no_holds_b, conf_ok, od_static, od_pub in H; cbn in H; split_hyps; subst; prune.
 
 Arguments inv_b : simpl never.
 
@@ -117,6 +144,7 @@ Ltac enum H :=
          | x : bool |- _ => match goal with Hx : context [x] |- _ => match type of Hx with _ = true => spx x end end
          | x : ods |- _ => match goal with Hx : context [x] |- _ => match type of Hx with _ = true => spx x end end
          | x : option Z |- _ => match goal with Hx : context [x] |- _ => match type of Hx with _ = true => spx x end end
+         | x : sub |- _ => match goal with Hx : context [x] |- _ => match type of Hx with _ = true => spx x end end
          | x : list _ |- _ => match goal with Hx : context [isnil x] |- _ => match type of Hx with _ = true => spx x end end
          end.
 
@@ -130,11 +158,13 @@ Ltac split_ifs :=
           | |- context [match ?l with [] => _ | _ :: _ => _ end] => destruct l eqn:?
           end; cbn).
 
-Ltac leaf := cbn; split_ifs; unfold inv_b, core_b, hold_b, no_holds_b, closed_b, conf_ok, od_static, od_pub; cbn; try reflexivity.
+Ltac leaf := cbn; split_ifs; unfold inv_b, core_b, sub_b, hold_b, no_holds_b, closed_b, conf_ok, od_static, od_pub; cbn;
+  rewrite ?Z.eqb_refl; try reflexivity.
 
 Ltac unf :=
   unfold step_gen, do_describe, do_add_reader, do_remove_reader, do_add_publisher, attach_publisher,
     do_remove_publisher, do_static_ready, do_static_not_ready, do_timer, do_close, clear_timers, close_source, close_demand, close_stream, execute_remove_publisher,
+    source_gone, start_offline, attach_tail, aa, not_aa,
     set_not_available, set_available, set_online, set_offline, call_unavailable, hook_open, hook_close, panic,
     handler_start, handler_stop, ss_start, ss_schedule_close, ss_stop, pub_start, pub_schedule_close, pub_stop,
     add_reader_post, bump_on_demand, fail_on_hold, whenM, bindM, modify, emit, ret, timer_armed, disarm, cur_stream.
@@ -147,26 +177,27 @@ Ltac red_goal :=
   lazy beta iota zeta delta [fst snd
      step_gen do_describe do_add_reader do_remove_reader do_add_publisher attach_publisher
      do_remove_publisher do_static_ready do_static_not_ready do_timer do_close clear_timers close_source close_demand close_stream execute_remove_publisher
+     source_gone start_offline attach_tail aa not_aa
      set_not_available set_available set_online set_offline call_unavailable hook_open hook_close panic
      handler_start handler_stop ss_start ss_schedule_close ss_stop pub_start pub_schedule_close pub_stop
      bump_on_demand fail_on_hold whenM bindM modify emit ret timer_armed disarm cur_stream
      set_closed set_source set_stream set_nextgen set_readers set_dhold set_rhold set_ssState set_ssReadyT
      set_ssCloseT set_ssRunning set_instReady set_pubState set_pubReadyT set_pubCloseT set_hUnDemand
-     set_hUnavail set_hOffline
+     set_hUnavail set_hOffline set_sub
      s_conf s_closed s_source s_stream s_nextgen s_readers s_dhold s_rhold s_ssState s_ssReadyT s_ssCloseT
-     s_ssRunning s_instReady s_pubState s_pubReadyT s_pubCloseT s_hUnDemand s_hUnavail s_hOffline
+     s_ssRunning s_instReady s_pubState s_pubReadyT s_pubCloseT s_hUnDemand s_hUnavail s_hOffline s_sub
      PathSM.c_static PathSM.c_sod PathSM.c_override PathSM.c_maxr PathSM.c_hAvail PathSM.c_hUnavail
-     PathSM.c_hOnline PathSM.c_hOffline PathSM.c_hDemand PathSM.c_hUnDemand
+     PathSM.c_hOnline PathSM.c_hOffline PathSM.c_hDemand PathSM.c_hUnDemand PathSM.c_aa
      od_static od_pub ods_eqb andb orb negb
-     inv_b core_b hold_b no_holds_b closed_b conf_ok is_some isnil impb Bool.eqb].
+     inv_b core_b sub_b hold_b no_holds_b closed_b conf_ok is_some isnil is_snone impb Bool.eqb].
 (* case split on the symbolic conditions of the handlers (list membership, id equality, reader limit) *)
 Ltac split_atoms :=
-  repeat (match goal with
+  repeat (rewrite ?Z.eqb_refl; match goal with
           | |- context [mem ?r ?l] => destruct (mem r l) eqn:?
           | |- context [remove_z ?r ?l] => destruct (remove_z r l) eqn:?
           | |- context [Z.eqb ?a ?b] => destruct (Z.eqb a b) eqn:?
           | |- context [Z.leb ?a ?b] => destruct (Z.leb a b) eqn:?
-          end; red_goal).
+          end; red_goal); rewrite ?Z.eqb_refl.
 Ltac leaf' := red_goal; split_atoms; try reflexivity.
 Ltac fin_live' H := enum H; leaf'.
 
@@ -203,12 +234,12 @@ Qed.
 
 Lemma bump_set_readers x s : bump_on_demand (set_readers x s) = set_readers x (bump_on_demand s).
 Proof.
-  destruct s as [cf ? ? ? ? ? ? ? sst ? ? ? ? pst ? ? ? ? ?]. unfold bump_on_demand. cbn.
+  destruct s as [cf ? ? ? ? ? ? ? sst ? ? ? ? pst ? ? ? ? ? ?]. unfold bump_on_demand. cbn.
   destruct (od_static cf); [destruct sst; reflexivity|]. destruct (od_pub cf); [destruct pst; reflexivity|reflexivity].
 Qed.
 Lemma bump_idem s : bump_on_demand (bump_on_demand s) = bump_on_demand s.
 Proof.
-  destruct s as [cf ? ? ? ? ? ? ? sst ? ? ? ? pst ? ? ? ? ?]. unfold bump_on_demand. cbn.
+  destruct s as [cf ? ? ? ? ? ? ? sst ? ? ? ? pst ? ? ? ? ? ?]. unfold bump_on_demand. cbn.
   destruct (od_static cf) eqn:E1; [destruct sst; cbn; rewrite ?E1; reflexivity|].
   destruct (od_pub cf) eqn:E2; [destruct pst; cbn; rewrite ?E1, ?E2; reflexivity|cbn; rewrite E1, E2; reflexivity].
 Qed.
@@ -240,18 +271,39 @@ Proof.
 Qed.
 
 (* the part of doAddPublisher / doSourceStaticSetReady before consumeOnHoldRequests *)
-Definition pre_attach (p : Z) : M :=
-  set_available ;; modify (set_source (Some p)) ;;
+Definition pre_tail (p : Z) : M :=
+  modify (set_sub (SPub p)) ;; modify (set_source (Some p)) ;;
+  whenM aa set_online ;;
   whenM (fun s => od_pub (s_conf s) && negb (ods_eqb (s_pubState s) OdInitial))
     (modify (set_pubReadyT false) ;; pub_schedule_close).
+Definition pre_attach (p : Z) : M := whenM not_aa set_available ;; pre_tail p.
 Definition pre_static_ready : M :=
-  set_available ;;
+  whenM not_aa set_available ;;
+  modify (set_sub SStatic) ;;
+  whenM aa set_online ;;
   whenM (fun s => od_static (s_conf s)) (modify (set_ssReadyT false) ;; ss_schedule_close).
 
-Lemma fst_attach q p s : fst (attach_publisher q p s) = fst (consume_on_hold (fst (pre_attach p s))).
-Proof. unfold attach_publisher, pre_attach. rewrite !fst_bind. reflexivity. Qed.
+Lemma conf_when_sa s : s_conf (fst (whenM not_aa set_available s)) = s_conf s.
+Proof.
+  destruct s as [[? ? ? ? ? ? ? ? ? ? a] ? ? ? ? ? ? ? ? ? ? ? ? ? ? ? ? ? h ?]; destruct a, h; reflexivity.
+Qed.
+
+Lemma fst_attach_tail q p s : fst (attach_tail q p s) = fst (consume_on_hold (fst (pre_tail p s))).
+Proof. unfold attach_tail, pre_tail. rewrite !fst_bind. reflexivity. Qed.
+
+(* a refused publisher (alwaysAvailable, other tracks) leaves the state as it is *)
+Lemma fst_attach q p ok s :
+  fst (attach_publisher q p ok s) =
+  if aa s && negb ok then s else fst (consume_on_hold (fst (pre_attach p s))).
+Proof.
+  unfold attach_publisher, pre_attach. rewrite !fst_bind. unfold aa at 1. rewrite conf_when_sa. fold (aa s).
+  destruct (aa s) eqn:E.
+  - unfold whenM, not_aa. unfold aa in E. rewrite E. cbn [negb fst]. destruct ok; cbn [negb andb fst]; [apply fst_attach_tail|reflexivity].
+  - cbn [andb]. apply fst_attach_tail.
+Qed.
 
 Arguments consume_on_hold : simpl never.
 Arguments pre_attach : simpl never.
+Arguments pre_tail : simpl never.
 Arguments pre_static_ready : simpl never.
 
